@@ -104,6 +104,14 @@ CHECKS = {
         note=PROOF_NOTE + "Modelled, not verified: torch optimisers, GradScaler(enabled=False), LambdaLR; one backward() per _do_iteration; resume inside an accumulation window (gradients are not checkpointed) is outside the theorem and only exercised.",
         technique="Coq proof over a loop IR regenerated from the source (case split on guards + induction over iterations) + exact correspondence through the real training loop",
         design="§6 C16"),
+    "C19": dict(
+        text="The likelihood block of the recurrent inference machines and the conjugate-gradient operators are regenerated on every run as operator terms, the CG updates as expressions over abstract vector-space operations. "
+             "Theorems: the block equals A*(A x - M y) with A = M F E, A* = R F^-1 M (masking linear and idempotent); in any real inner-product space with A linear and A* its adjoint, Phi(x+h) = Phi(x) + 2<A*(Ax-b), h> + ||A h||^2 exactly, "
+             "so the block is the gradient of 1/2||Ax - b||^2 for every x, b (and vanishes on consistent data); B = A*A + lambda I with A*A self-adjoint; for every number of iterations, step-size rule and beta rule the CG residual is b - B x_k with b = A*y + lambda z. "
+             "Tied by exact correspondence of the regenerated terms in a one-pixel instance over Q and by numeric validation against autograd and a dense solve (sizes to 12x12x4, lambda 0.05-10, FR and PRP, empty/full/random masks, centred or not).",
+        note=PROOF_NOTE + "Modelled, not verified: unitarity of the normalised FFT pair (adjointness hypothesis), adjointness of expand/reduce (C02), linearity of torch operations; CG convergence to solver tolerance and 'never worse than the start' are validated numerically only.",
+        technique="Coq proof (ring identities in abstract inner-product spaces over regenerated operator terms; induction over CG iterations) + exact one-pixel correspondence + numeric validation",
+        design="§6 C19"),
     "C14": dict(
         text="Theorem over the reconstruct_volumes state machine (last_filename / curr_volume / slice_counter / volume_size) for every sequence of volumes delivered as non-empty batches of consecutive slices, any names, items and per-slice function: "
              "exactly one output per volume, in order, k-th slice = processed output of the k-th slice; composed with the chunking of the volume batch sampler the result is independent of the batch size. "
